@@ -1,6 +1,6 @@
 """Common driver for all checks: build, workers, Hypothesis campaigns, triage,
 known findings, evidence, replay."""
-import os, sys, json, time, argparse, subprocess, importlib, traceback, hashlib, multiprocessing, collections, random
+import zlib, os, sys, json, time, argparse, subprocess, importlib, traceback, hashlib, multiprocessing, collections, random
 
 VERIF = os.path.dirname(os.path.dirname(os.path.abspath(__file__)))
 sys.path.insert(0, VERIF)
@@ -95,7 +95,7 @@ def run_hypothesis(ctx, strategy, run_case, n_examples, label=""):
 
     state = {"last": None}
 
-    @seed(ctx.seed * 1000003 + ctx.widx * 7919 + (hash(label) % 1000 if label else 0))
+    @seed(ctx.seed * 1000003 + ctx.widx * 7919 + (zlib.crc32(label.encode()) % 1000 if label else 0))
     @settings(max_examples=n_examples, database=None, deadline=None, derandomize=False,
               suppress_health_check=list(HealthCheck), report_multiple_bugs=False,
               phases=[Phase.generate, Phase.shrink], verbosity=Verbosity.quiet, print_blob=False)
